@@ -20,6 +20,7 @@ func init() {
 			"R09.1 also: no request-reachable code stores whole elements into a slice of library structures it did not make; R09.4 also: ResetAuth overwrites only the two security keys. " +
 			"R09.1 also: request-reachable code never appends into x[:0] of a slice it did not make; R09.5 also: memo contexts are rooted in the request the accessor was given. " +
 			"R09.2 also: validation.bound / result are never package-level objects; R09.1 also: no in-place sort / copy into a slice the function did not make; a sync.Map written on the request path in a shared structure is reported as not decided. " +
+			"R09.5 also: LookupRoute is called by RouteInfo only, and a non-empty negotiated format is always memoised. " +
 			"NOT decided: absence of data races in general (user handlers, net/http internals, happens-before through channels).",
 		Assumptions: []string{"VTA call graph of x/tools v0.29.0 over-approximates dynamic dispatch inside the repository"},
 		Run:         runC09,
